@@ -217,6 +217,15 @@ func (c *Ctx) dispatchSpec(pkg, name string) *dispatchSpec {
 		}}
 	case pkgExpr + ".toString":
 		return &dispatchSpec{isOp, isStringType}
+	case pkgReduce + ".reducers":
+		// the reducers as a function from the position in the order of trial to the reducer
+		return &dispatchSpec{func(t types.Type) bool {
+			b, ok := t.Underlying().(*types.Basic)
+			return ok && b.Kind() == types.Int
+		}, func(t types.Type) bool {
+			s := sigOf(t)
+			return s != nil && s.Params().Len() == 3 && s.Results().Len() == 3 && isBool(s.Results().At(2).Type()) && isStringType(s.Params().At(2).Type())
+		}}
 	case pkgLex + ".symbols":
 		return &dispatchSpec{func(t types.Type) bool {
 			b, ok := t.Underlying().(*types.Basic)
